@@ -100,7 +100,7 @@ def roundtrip(chk, program, encfn, lengths, seqs):
             selfo.attrs.update(A.class_constants(None, program.cls('encoder', 'NMEA2000Encoder')))
             payload = A.ABytes([A.sym_byte('payload', i) for i in range(L)])
             try:
-                frames = A.Interp().call_function(encfn, [selfo, A.AInt(None), A.AInt(None), A.AInt(None), A.AInt(None), payload])
+                frames = _enc_interp(program).call_function(encfn, [selfo, A.AInt(None), A.AInt(None), A.AInt(None), A.AInt(None), payload])
             except A.RaiseSignal:
                 continue          # reported by FP-LEN
             except A.Unknown as u:
@@ -114,7 +114,7 @@ def roundtrip(chk, program, encfn, lengths, seqs):
                 return NotImplemented
             from ..wire import is_logger
             dec = A.AObj(data=A.ADict())
-            it = A.Interp(hook=hook, skip=is_logger, classes=classes)
+            it = A.Interp(hook=hook, skip=is_logger, classes=dict(_dec_classes(program), **classes), methods=_dec_methods(program), module=A.ModuleEnv(program.mod('decoder').tree))
             early = None
             try:
                 for i, f in enumerate(frames.items):
@@ -144,6 +144,20 @@ def roundtrip(chk, program, encfn, lengths, seqs):
                       expected='nothing before the last frame, then exactly one delivery of payload[0..L-1]; record deleted', found=found)
     return n
 
+def _enc_interp(program):
+    """an interpreter that sees the encoder's other methods (helpers of the segmenter) and the module's names (hoisted constants, helper functions)"""
+    from ..wire import is_logger
+    cls = program.cls('encoder', 'NMEA2000Encoder')
+    methods = {n.name: n for n in cls.body if isinstance(n, (ast.FunctionDef, ast.AsyncFunctionDef))}
+    return A.Interp(methods=methods, skip=is_logger, module=A.ModuleEnv(program.mod('encoder').tree))
+
+def _dec_methods(program):
+    cls = program.cls('decoder', 'NMEA2000Decoder')
+    return {n.name: n for n in cls.body if isinstance(n, (ast.FunctionDef, ast.AsyncFunctionDef))}
+
+def _dec_classes(program):
+    return {c: d for c, d in program.mod('decoder').classes.items() if c != 'NMEA2000Decoder'}
+
 def segmenter_sweep(chk, program, lengths, seqs):
     fn = program.fn('encoder', 'NMEA2000Encoder._encode_fast_message')
     consts_ = A.class_constants(None, program.cls('encoder', 'NMEA2000Encoder'))
@@ -157,7 +171,7 @@ def segmenter_sweep(chk, program, lengths, seqs):
             selfo = A.AObj(sequence_counter=A.AInt(seq))
             selfo.attrs.update(consts_)
             payload = A.ABytes([A.sym_byte('payload', i) for i in range(L)])
-            it = A.Interp()
+            it = _enc_interp(program)
             try:
                 frames = it.call_function(fn, [selfo, A.AInt(None), A.AInt(None), A.AInt(None), A.AInt(None), payload])
             except A.RaiseSignal as r:
@@ -237,7 +251,7 @@ def decoder_side(chk, program, encfn):
     frames = None
     for plen in (223, 216, 100):
         try:
-            frames = A.Interp().call_function(encfn, [selfo, A.AInt(None), A.AInt(None), A.AInt(None), A.AInt(None), A.ABytes([A.sym_byte('payload', i) for i in range(plen)])])
+            frames = _enc_interp(program).call_function(encfn, [selfo, A.AInt(None), A.AInt(None), A.AInt(None), A.AInt(None), A.ABytes([A.sym_byte('payload', i) for i in range(plen)])])
             break
         except A.RaiseSignal:
             continue        # a length the segmenter refuses is reported by FP-LEN
